@@ -247,6 +247,12 @@ Theorem C20_composition_trough : forall a L, mk_trough a = Ok L ->
 Proof. exact mk_trough_composition. Qed.
 Print Assumptions C20_composition_trough.
 
+(** one (possibly None) column name per column *)
+Theorem C20_colnames_trough : forall a L, mk_trough a = Ok L ->
+  length (column_names a (g_cols (lw_geom L))) = g_cols (lw_geom L).
+Proof. exact mk_trough_colnames_length. Qed.
+Print Assumptions C20_colnames_trough.
+
 (** the keys of [component_names] are real wells *)
 Theorem C20_names_real : forall a L w s, mk_labware a = Ok L -> In (w, s) (a_names a) ->
   exists r c, r < g_rows (lw_geom L) /\ c < g_cols (lw_geom L) /\ w = well_id r c.
